@@ -204,7 +204,9 @@ def build(repo):
                ensures=['implies(not isnone(result[1]), result[1].flag == EXIT_LINALG_ERROR)',
                         ('(C04 ii) with skip_kopt the slot chosen for replacement is never the incumbent:: '
                          'implies(skip_kopt and isnone(result[1]), isnone(result[0]) or result[0] != KOPT(G.mver))', 'C04')])
-    D.contract('Controller.calculate_ratio', tags=['C10'], modifies=['self.diffs', 'self.last_successful_iter'], result=('val', 'optexit'),
+    D.contract('Controller.calculate_ratio', tags=['C10'], params={'x': 'val'}, modifies=['self.diffs', 'self.last_successful_iter'], result=('val', 'optexit'),
+               requires=[('(C06) the ratio test evaluates the regulariser at the incumbent in ABSOLUTE coordinates (x is model.xopt(abs_coordinates=True), not the point relative to '
+                          'the base):: x == REC_X(G.mver)', 'C06')],
                ensures=['implies(not isnone(result[1]), result[1].flag == EXIT_TR_INCREASE_WARNING or result[1].flag == EXIT_TR_INCREASE_ERROR)'])
 
     # ---------------------------------------------------------------- solve_main
